@@ -422,10 +422,10 @@ Definition dom_dyad (f : string) (a b : val) : bool :=
   if fis f "eval_dyad_find" then
     match a, b with
     | VS _, VC _ | VS _, VS _ => true
-    | VL l, _ => forallb (fun x => match_kinds_ok x b || negb (is_strlike x && is_strlike b)) l
+    | VL l, _ => forallb (fun x => (match_kinds_ok x b || negb (is_strlike x && is_strlike b)) && negb (k_close x b)) l
     | _, _ => false
     end else
-  if fis f "eval_dyad_match" then match_kinds_ok a b else
+  if fis f "eval_dyad_match" then match_kinds_ok a b && negb (k_close a b) else
   if fis f "eval_dyad_reshape" then
     match b with
     | VS s => shape_ok a (zlen s) && (negb (zlen s =? 0)) && (List.length (zints a) <=? 2)%nat
@@ -476,10 +476,10 @@ Definition k_dyad (f : string) (a b : val) : string :=
      if all_lists_same_len r && negb (forallb (fun x => shape_eqb (npshape x) (npshape (hd VU r))) r) then "join-ragged"
      else if negb (res_normal (s_dyad f a b)) then "homogenise" else "") else
   if fis f "eval_dyad_at_index" then (if negb (res_normal (s_dyad f a b)) then "homogenise" else "") else
-  if fis f "eval_dyad_match" then (if k_close a b then "match-tolerance" else "") else
+  if fis f "eval_dyad_match" then "" else
   if fis f "eval_dyad_find" then
     (match a, b with
-     | VL l, VL _ => if existsb (fun x => k_close x b) l then "match-tolerance" else ""
+     | VL l, VL _ => ""
      | VL l, _ => if (1 <? npdepth a)%nat || existsb is_arr l then "find-nested"
                   else if existsb (fun x => match x, b with VY _, VY _ => s_same x b | _, _ => false end) l then "find-symbol" else ""
      | _, _ => "" end) else
